@@ -76,12 +76,25 @@ impl Request {
     where
         T: Read,
     {
+        Self::from_buffered_stream(&mut BufReader::new(stream), address)
+    }
+
+    /// Attempts to read and parse one HTTP request from the given buffered reader.
+    ///
+    /// Unlike `from_stream`, which buffers internally and discards whatever it has read beyond the end
+    ///   of the request, this leaves any bytes read ahead in the reader, so further (pipelined)
+    ///   requests can be parsed from the same reader afterwards.
+    #[cfg(not(feature = "tokio"))]
+    pub fn from_buffered_stream<T>(reader: &mut T, address: SocketAddr) -> Result<Self, RequestError>
+    where
+        T: BufRead,
+    {
         let mut first_buf: [u8; 1] = [0; 1];
-        stream
+        reader
             .read_exact(&mut first_buf)
             .map_err(|_| RequestError::Disconnected)?;
 
-        Self::from_stream_inner(stream, address, first_buf[0])
+        Self::from_stream_inner(reader, address, first_buf[0])
     }
 
     /// Attempts to read and parse one HTTP request from the given reader.
@@ -90,13 +103,29 @@ impl Request {
     where
         T: AsyncReadExt + Unpin,
     {
+        Self::from_buffered_stream(&mut BufReader::new(stream), address).await
+    }
+
+    /// Attempts to read and parse one HTTP request from the given buffered reader.
+    ///
+    /// Unlike `from_stream`, which buffers internally and discards whatever it has read beyond the end
+    ///   of the request, this leaves any bytes read ahead in the reader, so further (pipelined)
+    ///   requests can be parsed from the same reader afterwards.
+    #[cfg(feature = "tokio")]
+    pub async fn from_buffered_stream<T>(
+        reader: &mut T,
+        address: SocketAddr,
+    ) -> Result<Self, RequestError>
+    where
+        T: AsyncBufReadExt + Unpin,
+    {
         let mut first_buf: [u8; 1] = [0; 1];
-        stream
+        reader
             .read_exact(&mut first_buf)
             .await
             .map_err(|_| RequestError::Disconnected)?;
 
-        Self::from_stream_inner(stream, address, first_buf[0]).await
+        Self::from_stream_inner(reader, address, first_buf[0]).await
     }
 
     /// Attempts to read and parse one HTTP request from the given stream, timing out after the timeout.
@@ -121,7 +150,37 @@ impl Request {
 
         stream.set_timeout(None).map_err(|_| RequestError::Stream)?;
 
-        Self::from_stream_inner(stream, address, first_buf[0])
+        Self::from_stream_inner(&mut BufReader::new(stream), address, first_buf[0])
+    }
+
+    /// Attempts to read and parse one HTTP request from the given buffered stream, timing out after the
+    ///   timeout if no request starts to arrive. Bytes read ahead stay in the reader (see `from_buffered_stream`).
+    #[cfg(not(feature = "tokio"))]
+    pub fn from_buffered_stream_with_timeout(
+        reader: &mut BufReader<Stream>,
+        address: SocketAddr,
+        timeout: Duration,
+    ) -> Result<Self, RequestError> {
+        reader
+            .get_ref()
+            .set_timeout(Some(timeout))
+            .map_err(|_| RequestError::Stream)?;
+
+        let mut first_buf: [u8; 1] = [0; 1];
+        reader
+            .read_exact(&mut first_buf)
+            .map_err(|e| match e.kind() {
+                ErrorKind::TimedOut => RequestError::Timeout,
+                ErrorKind::WouldBlock => RequestError::Timeout,
+                _ => RequestError::Disconnected,
+            })?;
+
+        reader
+            .get_ref()
+            .set_timeout(None)
+            .map_err(|_| RequestError::Stream)?;
+
+        Self::from_stream_inner(reader, address, first_buf[0])
     }
 
     /// Get the cookies from the request.
@@ -150,14 +209,13 @@ impl Request {
     /// Attempts to read and parse one HTTP request from the given reader.
     #[cfg(not(feature = "tokio"))]
     fn from_stream_inner<T>(
-        stream: &mut T,
+        reader: &mut T,
         address: SocketAddr,
         first_byte: u8,
     ) -> Result<Self, RequestError>
     where
-        T: Read,
+        T: BufRead,
     {
-        let mut reader = BufReader::new(stream);
         let mut start_line_buf: Vec<u8> = Vec::with_capacity(256);
         reader
             .read_until(0xA, &mut start_line_buf)
@@ -247,14 +305,13 @@ impl Request {
     /// Attempts to read and parse one HTTP request from the given reader.
     #[cfg(feature = "tokio")]
     async fn from_stream_inner<T>(
-        stream: &mut T,
+        reader: &mut T,
         address: SocketAddr,
         first_byte: u8,
     ) -> Result<Self, RequestError>
     where
-        T: AsyncReadExt + Unpin,
+        T: AsyncBufReadExt + Unpin,
     {
-        let mut reader = BufReader::new(stream);
         let mut start_line_buf: Vec<u8> = Vec::with_capacity(256);
         reader
             .read_until(0xA, &mut start_line_buf)
